@@ -6,8 +6,9 @@ class Prop:
     ID = 'C06'
     GEN = ['enums', 'node']
     MODEL_TARGETS = ['model/FailureHandler.vo', 'model/Node.vo', 'model/NodeSpec.vo']
-    TARGETS = ['props/C06.vo']
+    TARGETS = ['props/C06.vo', 'props/C06node.vo']
     PROPS_FILE = 'props/C06.v'
+    PROPS_FILES = ['props/C06.v', 'props/C06node.v']
     SUITES = [HandlerSuite(), InvalidationSuite(), FeedSuite(), CrashFeedSuite(),
               NodeSuite(evals={'mismatches': 'mismatches', 'spec_violations': 'spec_violations_c06n'},
                         quick=(500, 60), thorough=(3000, 150))]
